@@ -1,6 +1,7 @@
 """C19 -- find-snvs depths equal the filtered pileup; thresholds applied as documented."""
 import io
 import itertools
+import os
 
 import numpy as rnp
 import z3
@@ -10,14 +11,14 @@ from nbsym import engine as E
 ID = "C19"
 TITLE = "find-snvs allele depths == base calls of the reads passing the CONFIGURED read filters (--mapping-quality, keep-duplicate/qcfail/supplementary); alleles listed iff they meet the individual and population thresholds; >= 2 alleles; REF first / REFMASKED; ALT by decreasing mean sample frequency"
 TECHNIQUE = 'symbolic execution of bam_region_depths against a pysam.pileup contract stub (expected depth as a z3 term over all read variables); thresholds by solver-enumerated depths against an oracle; witnesses replayed on real BAM files'
-ENCODED = ["mchap.application.find_snvs.bam_region_depths", "mchap.application.find_snvs.bases_to_indices", "mchap.application.find_snvs._count_alleles",
+ENCODED = ["mchap.application.find_snvs.main", "mchap.application.find_snvs.bam_region_depths", "mchap.application.find_snvs.bases_to_indices", "mchap.application.find_snvs._count_alleles",
            "mchap.application.find_snvs.write_vcf_block", "mchap.application.find_snvs._vcf_sort_alleles", "mchap.application.find_snvs._order_as_vcf_alleles",
            "mchap.application.find_snvs.format_samples_columns"]
 STUBS = ["pysam.AlignmentFile.pileup(**kwargs) -> contract stub: honours exactly the keyword names pysam documents (min_mapping_quality, flag_filter, flag_require, ignore_orphans, min_base_quality, stepper, truncate, ...) with pysam's defaults (stepper='samtools': flag_filter = UNMAP|SECONDARY|QCFAIL|DUP, min_base_quality 13, ignore_orphans) and silently ignores any other keyword, as pysam's IteratorColumn does",
          "pysam.FastaFile.fetch -> the reference string; numba.vectorize / guvectorize -> numpy.vectorize of the same Python kernels"]
 ASSUMES = ["depth obligation: reads are symbolic (flags, MAPQ, base); the expected depth is a z3 term over all read variables and the four filter options",
            "threshold obligations: write_vcf_block is numpy/pandas string code (C boundary): depths and thresholds are solver-enumerated over a finite grid and the emitted lines compared with an independent oracle"]
-BOUNDS = {"quick": "depths: 2 reads x 1 position x 1 sample, all flag/MAPQ/base combinations, 6 option settings (each keep flag toggled alone at least once); thresholds: 1 site x 2 samples x counts in {0,1,3} for A,C,G, 8 threshold settings, plus counts in {0,10,100} and {9,99,1000} for 2 settings (rendering width); FORMAT AD, INFO AD and ADMF text compared",
+BOUNDS = {"quick": "depths: 2 reads x 1 position x 1 sample, all flag/MAPQ/base combinations, 6 option settings (each keep flag toggled alone at least once); thresholds: 1 site x 2 samples x counts in {0,1,3} for A,C,G, 8 threshold settings, plus counts in {0,10,100} and {9,99,1000} for 2 settings (rendering width); FORMAT AD, INFO AD and ADMF text compared; command line: 48 settings (3 keep flags x 3 mapping qualities x thresholds given/defaulted) on the repository's 3 test BAMs and 4-interval bed, arguments bound through write_vcf_block's own signature",
           "thorough": "depths: 3 reads; thresholds: 32 threshold settings, counts in {0,1,2,4}"}
 OUTSIDE = "htslib's pileup engine (overlap detection, base-quality and orphan handling are only modelled as documented defaults); depths above 1000"
 TASKS_PER_CHILD = 2
@@ -40,6 +41,8 @@ def configs(tier):
     for th in (grid[0], grid[-1]):
         out.append(dict(group="thresholds", th=th, counts=[0, 10, 100]))
         out.append(dict(group="thresholds", th=th, counts=[9, 99, 1000]))
+    # the command line -> write_vcf_block: every read filter and threshold option reaches the parameter of that name
+    out.append(dict(group="cli"))
     return out
 
 
@@ -57,9 +60,102 @@ def run_config(c, col):
     warnings.simplefilter("ignore")
     prof = E.Profile()
     with prof:
-        (_run_depth if c["group"] == "depth" else _run_thresholds)(c, col)
+        dict(depth=_run_depth, thresholds=_run_thresholds, cli=_run_cli)[c["group"]](c, col)
     col.functions |= set(prof.names())
     E.cfg.concrete_floats = False
+
+
+# ------------------------------------------------------------------ command line -> block writer
+
+CLI_TH = {"maf": ("--maf", "0.11"), "mad": ("--mad", "3"), "ind_maf": ("--ind-maf", "0.07"), "ind_mad": ("--ind-mad", "5"), "min_ind": ("--min-ind", "2")}
+CLI_MQ = [None, 7, 33]
+
+
+def _cli_drive(fs, choice):
+    """find_snvs.main on the repository's own test BAMs with the block writer replaced by a recorder bound through the REAL
+    write_vcf_block signature (defaults applied); the option settings are drawn through `choice` (solver / witness).
+    Returns (expected parameter values, recorded calls, bed rows)."""
+    import contextlib
+    import inspect
+    import os
+
+    data = os.path.join(E.repo_root(), "mchap", "tests", "test_io", "data")
+    keep = {k: int(choice("keep_" + k, 0, 1)) for k in ("duplicate", "qcfail", "supplementary")}
+    mq = CLI_MQ[int(choice("mq", 0, len(CLI_MQ) - 1))]
+    explicit = int(choice("explicit_thresholds", 0, 1))
+    cmd = ["mchap", "find-snvs", "--targets", os.path.join(data, "simple.bed"), "--reference", os.path.join(data, "simple.fasta"),
+           "--bam"] + [os.path.join(data, "simple.sample%d.bam" % i) for i in (1, 2, 3)]
+    want = {}
+    for k, (flag, val) in CLI_TH.items():
+        if explicit:
+            cmd += [flag, val]
+            want[k] = float(val)
+    if mq is not None:
+        cmd += ["--mapping-quality", str(mq)]
+    want["mapping_quality"] = 20 if mq is None else mq  # documented default
+    for k in keep:
+        if keep[k]:
+            cmd.append("--keep-%s-reads" % k)
+    want.update(skip_duplicates=not keep["duplicate"], skip_qcfail=not keep["qcfail"], skip_supplementary=not keep["supplementary"])
+    store = fs.__dict__.setdefault("__c19_orig__", {})
+    for n in ("write_vcf_block", "write_vcf_header"):
+        store.setdefault(n, getattr(fs, n))
+    sig = inspect.signature(store["write_vcf_block"])
+    calls = []
+
+    def rec(*a, **k):
+        b = sig.bind(*a, **k)
+        b.apply_defaults()
+        calls.append(dict(b.arguments))
+
+    fs.write_vcf_block, fs.write_vcf_header = rec, (lambda *a, **k: None)
+    try:
+        with contextlib.redirect_stdout(io.StringIO()):
+            fs.main(cmd)
+    finally:
+        fs.write_vcf_block, fs.write_vcf_header = store["write_vcf_block"], store["write_vcf_header"]
+    rows = [ln.split("\t")[:3] for ln in open(os.path.join(data, "simple.bed")).read().splitlines() if ln.strip()]
+    return want, calls, rows, cmd
+
+
+def _cli_problems(want, calls, rows):
+    bad = []
+    if len(calls) != len(rows):
+        bad.append("%d blocks written for %d target intervals" % (len(calls), len(rows)))
+    for call, row in zip(calls, rows):
+        got_iv = (str(call["contig"]), int(call["start"]), int(call["stop"]))
+        if got_iv != (row[0], int(row[1]), int(row[2])):
+            bad.append("interval %s written as %s" % (row, got_iv))
+        for k, v in want.items():
+            g = call[k]
+            same = (bool(g) == v and isinstance(g, (bool, rnp.bool_))) if isinstance(v, bool) else (abs(float(g) - float(v)) < 1e-12)
+            if not same:
+                bad.append("%s=%r reaches write_vcf_block, the command line says %r" % (k, g, v))
+    return sorted(set(bad))
+
+
+def _run_cli(c, col):
+    fs = E.load("mchap.application.find_snvs")
+    site = "mchap.application.find_snvs.main"
+
+    def body(ctx):
+        return _cli_drive(fs, lambda name, lo, hi: int(E.SymInt(E.fresh_int(ctx, name, lo, hi))))
+
+    first = True
+    for pr in E.explore(body, stats=col.stats):
+        if pr.exc is not None:
+            col.fail(site, "exception", witness=dict(exc=repr(pr.exc)), desc="find-snvs main raised %r" % (pr.exc,))
+            continue
+        col.path()
+        if first:
+            col.reachable(pr.ctx)
+            first = False
+        want, calls, rows, cmd = pr.value
+        bad = _cli_problems(want, calls, rows)
+        if bad:
+            col.fail(site, "cli-option-wiring", witness=dict(command=cmd[2:3] + [x for x in cmd if x.startswith("--") or x.replace(".", "").isdigit()], problems=bad), desc="; ".join(bad)[:300])
+        else:
+            col.ok("every option of the command line reaches the block writer's parameter of the same meaning (settings solver-enumerated)")
 
 
 # ------------------------------------------------------------------ depths
@@ -314,6 +410,13 @@ def replay(v):
     c = v["config"]
     m = v.get("model") or (v.get("witness") or {}).get("model") or {}
     warnings.simplefilter("ignore")
+    if c["group"] == "cli":
+        import importlib
+
+        fs = importlib.import_module("mchap.application.find_snvs")
+        want, calls, rows, cmd = _cli_drive(fs, lambda name, lo, hi: int(m.get(name, lo)))
+        bad = _cli_problems(want, calls, rows)
+        return bool(bad), "real module, %s: %s" % (" ".join(x for x in cmd[2:] if not x.startswith("/")), "; ".join(bad) or "all options arrive")
     if c["group"] == "depth":
         import pysam
         from mchap.application.find_snvs import bam_region_depths
